@@ -5,6 +5,7 @@ import (
 	"flag"
 	"fmt"
 	"os"
+	"sort"
 	"strings"
 
 	"csverify/checks"
@@ -33,7 +34,7 @@ func runCheck(id, tier string) int {
 				}
 			}
 		}()
-		c(r)
+		checks.Run(id, r)
 	}()
 	return r.Finish()
 }
@@ -60,6 +61,45 @@ func main() {
 			*tier = "quick"
 		}
 		os.Exit(runCheck(id, *tier))
+	case "shared":
+		b, _ := json.MarshalIndent(checks.SharedRules(), "", " ")
+		fmt.Println(string(b))
+	case "rules":
+		// triage helper: rule names and obligation counts of one check on the current tree
+		if len(os.Args) < 3 {
+			usage()
+		}
+		os.Setenv("CSVERIFY_EVIDENCE_DIR", os.TempDir()+"/csverify-rules")
+		defer os.RemoveAll(os.TempDir() + "/csverify-rules")
+		checks.KeepExpansion = true
+		for _, id := range strings.Split(os.Args[2], ",") {
+			r := core.NewResult(id, "quick")
+			checks.Get(id)(r)
+			n := map[string]int{}
+			for _, o := range r.Obligations {
+				n[o.Rule]++
+			}
+			var ks []string
+			for k := range n {
+				ks = append(ks, fmt.Sprintf("%s=%d", k, n[k]))
+			}
+			sort.Strings(ks)
+			fmt.Printf("%s: %s\n", id, strings.Join(ks, " "))
+			if len(os.Args) > 3 {
+				seen := map[string]bool{}
+				for _, o := range r.Obligations {
+					c := o.Construct
+					if len(c) > 90 {
+						c = c[:90]
+					}
+					if o.Rule == os.Args[3] && !seen[c] {
+						seen[c] = true
+						fmt.Printf("  %s | %s\n", o.Rule, c)
+					}
+				}
+			}
+		}
+		checks.ReleaseExpansionNow()
 	case "checkmany":
 		// self-test helper: several checks in one process, sharing one template expansion (quick tier)
 		if len(os.Args) < 3 {
@@ -104,7 +144,7 @@ func main() {
 			os.Exit(2)
 		}
 		r := core.NewResult(f.Property, "quick")
-		c(r)
+		checks.Run(f.Property, r)
 		for _, g := range r.Findings {
 			if g.Rule == f.Rule && g.Construct == f.Construct {
 				fmt.Printf("STILL PRESENT on the current tree at %s:\n  %s\n", g.Pos, g.Msg)
